@@ -21,6 +21,7 @@ let handle kind c =
         match k with
         | "add" -> adder a
         | "rot" -> changer NewFile
+        | "rotf" -> changer FullFile
         | "ext" -> changer SameFile
         | _ -> failwith ("thread kind " ^ k)) specs in
     let nsteps = next_int c in
